@@ -238,12 +238,23 @@ def pmap(fn: Callable, items: Iterable, jobs: int, chunksize: int = 1):
     return out
 
 
+_DEAD_POOLS = []
+
+
 def close_pool():
     global _POOL
     if _POOL is not None:
-        _POOL.terminate()
-        _POOL.join()
-        _POOL = None
+        pool, _POOL = _POOL, None
+        # kill the workers outright: Pool.terminate()/join() can wait for ever on workers that are in the middle of a
+        # long task after a harness error (seen: the runner never exited when its output was a pipe)
+        for p in list(getattr(pool, '_pool', []) or []):
+            try:
+                p.kill()
+            except Exception:
+                pass
+        # never let the Pool object be finalised (its finaliser takes a queue lock a killed worker may hold): keep it
+        # referenced; the runner leaves with os._exit
+        _DEAD_POOLS.append(pool)
 
 
 def split(items: list, n: int) -> list[list]:
